@@ -30,6 +30,15 @@ SAMPLERS = [('Normal', ['2', '9']), ('Normal', ['-1', '1/4']), ('Uniform', ['1',
 def items(tier, seed):
     its = [dict(name='sim_' + n, kind='sim', src=s, iterations=k + (0 if tier == 'quick' else 1), budget=200) for n, s, k in SIM_PROGRAMS]
     its.append(dict(name='samplers', kind='samplers', src='samplers', budget=100))
+    if tier != 'quick':
+        # generated discrete programs of family G (no continuous draw, no symbolic parameter): every resolution path, 2 iterations
+        import re
+        cont = re.compile(r'\b(Normal|Uniform|Laplace|Exponential|Gamma|Beta|TruncNormal)\(')
+        k = 0
+        for n, src, vs in gen.family(23000 + seed, 500, allow_params=False):
+            if cont.search(src): continue
+            its.append(dict(name='gen_' + n, kind='sim', src=src, iterations=2, budget=150)); k += 1
+            if k >= 160: break
     return its
 
 
@@ -81,6 +90,8 @@ def check_item(it):
         return dict(status='violation' if viol else 'ok', checked=checked, violations=viol, nontrivial=True)
     st, out = common.run_probe('simulate.py', dict(src=it['src'], iterations=it['iterations']), timeout=it['budget'])
     if st == 'timeout': return dict(status='skipped', why='probe budget exceeded')
+    if st == 'ok' and 'is not a number in state' in str(out.get('probe_error', '')):
+        return dict(status='skipped', why='the simulator refuses a symbolic (uninitialised) value')
     if st != 'ok' or 'probe_error' in out: return dict(status='machinery-error', why=str(out))
     prog = lang.parse_program(it['src']); sem = lang.Sem(prog)
     ws = sem.init_worlds()
@@ -88,7 +99,8 @@ def check_item(it):
     for n in range(it['iterations'] + 1):
         want = {}
         for w in ws:
-            key = tuple((v, float(sem.read(sp.Symbol(v), w.st))) for v in names if sp.Symbol(v) in w.st)
+            try: key = tuple((v, float(sem.read(sp.Symbol(v), w.st))) for v in names if sp.Symbol(v) in w.st)
+            except TypeError: return dict(status='skipped', why='symbolic state (uninitialised variable): nothing to simulate')
             want[key] = want.get(key, 0.0) + float(w.p)
         got = {}
         for p in out['paths']:
